@@ -54,7 +54,7 @@ def build_harness():
     return time.time() - t0
 
 
-def run_tlc(module, cfg, workers=8, timeout=1800, env_extra=None, tag=None, simulate=None, deque=False):
+def run_tlc(module, cfg, workers=8, timeout=1800, env_extra=None, tag=None, simulate=None, deque=False, depth=6):
     """Runs TLC on spec/mc/<module>.tla (or an absolute path) with <cfg>.
     Returns dict(out=str, states=int, distinct=int, depth=int, ok=bool, violated=str|None, wall=float)."""
     mdir = os.path.join(SPEC, "mc")
@@ -70,7 +70,7 @@ def run_tlc(module, cfg, workers=8, timeout=1800, env_extra=None, tag=None, simu
     cmd = ["java"] + opts + ["-cp", TLA_CP, "tlc2.TLC", "-workers", str(workers), "-metadir", meta,
                              "-cleanup", "-noGenerateSpecTE", "-config", cfg]
     if simulate:
-        cmd += ["-simulate", simulate, "-depth", "6", "-seed", str(seed())]
+        cmd += ["-simulate", simulate, "-depth", str(depth), "-seed", str(seed())]
     cmd.append(module)
     env = dict(os.environ)
     env.pop("JAVA_TOOL_OPTIONS", None)
